@@ -312,29 +312,8 @@ def rule_attribution(ctx: Ctx, repo: Repo) -> None:
               construct=why or "all value returns", reason=why)
     ctx.floor("R-C02.4", "value return of get_func", n_ret, 1)
 
-    # _get_func: cache keyed by frame.f_code, filled by get_func(frame) of the same frame
-    cg = repo.method(repo.cls(M, "CallTracer"), "_get_func")
-    ctx.functions.add(cg.fq)
-    gcg = cfg_of(cg)
-    fr = cg.positional_params()[1]
-    stores = [(n, x) for n in gcg.stmts() for x in n.walk()
-              if isinstance(x, ast.Assign) and any(isinstance(t, ast.Subscript) and dotted(t.value) == "self.cache" for t in x.targets)]
-    ctx.floor("R-C02.4", "store into self.cache", len(stores), 1)
-    for n, x in stores:
-        t = [t for t in x.targets if isinstance(t, ast.Subscript)][0]
-        key_ok = all(norm(r) == f"{fr}.f_code" for r, _, _ in gcg.origins(t.slice, n.id))
-        val_ok = all(is_call_to(r, "get_func") and len(r.args) == 1 and dotted(r.args[0]) == fr for r, _, _ in gcg.origins(x.value, n.id))
-        ctx.check(key_ok and val_ok, "R-C02.4", cg.fq, "cache maps frame.f_code to get_func(frame) of that very frame",
-                  construct=norm(x), node=x)
-    for n, val in returns_of(cg):
-        roots = gcg.origins(val, n.id) if val is not None else []
-        ok = bool(roots) and all(
-            (isinstance(r, ast.Subscript) and dotted(r.value) == "self.cache"
-             and all(norm(q) == f"{fr}.f_code" for q, _, _ in gcg.origins(r.slice, at)))
-            or (is_call_to(r, "get_func") and len(r.args) == 1 and dotted(r.args[0]) == fr)
-            for r, _, at in roots
-        )
-        ctx.check(ok, "R-C02.4", cg.fq, "_get_func returns the cache entry of frame.f_code", construct=norm(n.ast), node=n.ast)
+    # _get_func's cache: decided on histories with real dict semantics (tracer_attribution_history): the function a
+    # call is attributed to is the one of its own frame, whatever equal-looking code object was resolved before
 
 
 def rule_arg_capture(ctx: Ctx, repo: Repo) -> None:
@@ -466,3 +445,5 @@ def run(ctx: Ctx, repo: Repo, tier: str) -> None:
     tracer_no_memory(ctx, repo, "R-C02.8")
     from .memo_rules import infer_no_memory
     infer_no_memory(ctx, repo, "R-C02.8")
+    from .memo_rules import tracer_attribution_history
+    tracer_attribution_history(ctx, repo, "R-C02.4")
